@@ -171,6 +171,22 @@ fn eval_arc(cx: f32, cy: f32, r: f32, start: f32, sweep: f32, ctx: u8) -> Result
         if dist(cur, ep) > tol_r.max(1e-3 * rr) + rr * slack {
             return bad("end-point", format!("curve ends at {:?}, expected {:?}", cur, ep));
         }
+        // very small sweeps: "exactly the angles from start to start+sweep" is still resolved by the
+        // coordinates where the start point has a coordinate near zero (start angle 0 or pi about the
+        // origin): the displacement from the start point to the end point, component by component,
+        // to 1% plus four units in the last place of the coordinates involved
+        if sw != 0.0 && sw.abs() < 1e-3 {
+            let want_d = (rr * ((s + sw).cos() - s.cos()), rr * ((s + sw).sin() - s.sin()));
+            let got_d = (cur.0 - p0.0, cur.1 - p0.1);
+            // (the angle start + sweep itself is formed in f32: it is only known to the spacing of
+            // floats at that angle)
+            let ang = rr * (s.abs() + sw.abs()) * 2.4e-7;
+            let u = |a: f64, b: f64| 4.0 * (a.abs().max(b.abs()) * 1.2e-7 + 1e-38) + ang;
+            let (tx, ty) = (0.01 * want_d.0.abs() + u(p0.0, cur.0), 0.01 * want_d.1.abs() + u(p0.1, cur.1));
+            if (got_d.0 - want_d.0).abs() > tx || (got_d.1 - want_d.1).abs() > ty {
+                return bad("small-sweep-displacement", format!("from the start point {:?} the curve ends {:?} further, the sweep of {:e} rad asks for {:?} (tolerances {:e}, {:e})", p0, got_d, sw, want_d, tx, ty));
+            }
+        }
     }
     Ok(hash64(&ops_dbg(&path.ops)))
 }
@@ -328,6 +344,31 @@ impl Check for C20 {
                 run.sample(format!("kind=arc cx=5.0 cy=-3.0 r=10.0 start={:?} sweep={:?} cur=1", starts[si], -1.5 * pi));
             }
         });
+        // sweeps far below any angular tolerance, where the coordinates still resolve them
+        {
+            let tiny: Vec<f32> = vec![9e-7, -9e-7, 5e-7, -5e-7, 1e-7, -1e-7, 2e-6, -2e-6, 1e-5, 1e-9, -1e-12];
+            let rads = [1.0f32, 1000.0, 1e6, 1e9];
+            run.bound("tiny sweeps", format!("{} sweeps of 1e-12 .. 1e-5 rad x radii {:?} x start angles 0, pi, pi/2 (f32) about the origin x 4 builder contexts", tiny.len(), rads));
+            run.seq(|l| {
+                for &sw in &tiny {
+                    for &r in &rads {
+                        for st in [0.0f32, pi, pi / 2.] {
+                            for ctx in 0u8..4 {
+                                l.states += 1;
+                                l.transitions += 1;
+                                l.traces += 1;
+                                l.evals += 1;
+                                l.nontrivial += 1;
+                                match eval_arc(0., 0., r, st, sw, ctx) {
+                                    Ok(h) => l.outcome(h),
+                                    Err(v) => run.report(3, v),
+                                }
+                            }
+                        }
+                    }
+                }
+            });
+        }
         // transform + finish
         let alpha = op_alpha();
         let depth = if deep { 6 } else { 4 };
